@@ -592,6 +592,10 @@ def scen_C09(ctx):
         lines += ['iter m0 keys', 'closeall', 'snap db']
         pair(ctx, 'keylen', i, lines, files_oracle=True)
     parallel(onek, list(enumerate([klens[i:i + 10] for i in range(0, len(klens), 10)])))
+    # "writing one entry never alters the bytes of another" also while records MOVE: chains of slot-exact key records with
+    # occupied neighbours, relocated when an offset field grows past 16 KiB; a 2 MiB value (4-byte length field)
+    parallel(lambda i: cascade_case(ctx, 'C09', i), range(ctx.scale(12, 60)))
+    parallel(lambda i: huge_case(ctx, 'C09', i, reopen=False), range(ctx.scale(1, 3)), workers=3)
 
 
 SCENARIOS['C09'] = scen_C09
@@ -1246,6 +1250,8 @@ def scen_C08(ctx):
         pair(ctx, 'collide', i, lines, stats=g.stats, files_oracle=True)
     parallel(collide_hist, range(ctx.scale(60, 500)))
     parallel(lambda i: cascade_case(ctx, 'C08', i), range(ctx.scale(24, 120)))
+    # however large the offsets involved: a value beyond 2 MiB (4-byte varint fields), overwritten and followed by chained entries
+    parallel(lambda i: huge_case(ctx, 'C08', i, reopen=False), range(ctx.scale(1, 4)), workers=4)
 
 
 SCENARIOS['C08'] = scen_C08
